@@ -202,6 +202,8 @@ def c02_forms(extended):
     add("r", "store volatile<unsigned long long[2][2]> = nested std::array of raw pointers",
         "std::array<std::array<pint, 2>, 2> ra{{ {{ e.raw(), e.raw() }}, {{ e.raw(), e.raw() }} }}; auto& v = *Wd::tptr<unsigned long long[2][2]>(e.sb, 512); v = ra; sink(e, v[0][0]);")
     add("r", "store struct array field = std::array of raw pointers", "std::array<pint, 2> ra{ e.raw(), e.raw() }; auto& v = *Wd::tptr<unsigned long long[2]>(e.sb, 512); v = ra; sink(e, v[1]);")
+    # the two run-time entry points with function-pointer typed arguments, swept over the same addresses as the data-pointer forms
+    add("x", "entry-point sweep with function-pointer arguments", "if (mon::slice() == 0) { mon::Rng r(mon::seed() * 53 + 3); c02_entry_points_t<fnp>(e, r, \"(function-pointer)\"); mon::hit(\"entry-point-sweep-with-function-pointers\"); }")
     # raw function pointers
     add("r", "init tainted<fnp> = raw function", "fnp f = &plain_fn; tainted<fnp, S> t = f; sink(e, t);")
     add("r", "store volatile<fnp> = raw function", "fnp f = &plain_fn; e.V<fnp>() = f; sink(e, e.V<fnp>());")
@@ -226,11 +228,32 @@ def c02_forms(extended):
         add("r", "register_callback(%s)" % nm, "auto c = e.sb.register_callback(%s); sink_cb(e, c);" % nm)
     add("g", "register_callback(well-formed) control", "auto c = e.sb.register_callback(cb_good2); sink_cb(e, c);")
     add("g", "register_callback(opaque params) control", "auto c = e.sb.register_callback(cb_good_opaque); sink_cb(e, c);")
-    # function-pointer type mismatches
-    add("r", "store volatile<fnp> = callback of other type", "auto c = e.sb.register_callback(cb_long); e.V<fnp>() = c; sink(e, e.V<fnp>());")
-    add("r", "invoke(take_fn, callback of other type)", "auto c = e.sb.register_callback(cb_long); sink(e, Wd::invoke<fnp(fnp)>(e.sb, \"take_fn\", c));")
-    add("r", "store volatile<fnp> = function address of other type", "auto fa = e.sb.INTERNAL_get_sandbox_function_name<long(long)>(\"echo_int\"); e.V<fnp>() = fa; sink(e, e.V<fnp>());")
+    # function-pointer type mismatches: "a callback or sandbox function address can be stored or passed only where the
+    # function-pointer type matches" -- tag f: completing is the violation
+    FA = "auto fa = e.sb.INTERNAL_get_sandbox_function_name<long(long)>(\"echo_int\");"
+    add("f", "store volatile<fnp> = callback of other type", "auto c = e.sb.register_callback(cb_long); e.V<fnp>() = c; sink(e, e.V<fnp>());")
+    add("f", "invoke(take_fn, callback of other type)", "auto c = e.sb.register_callback(cb_long); sink(e, Wd::invoke<fnp(fnp)>(e.sb, \"take_fn\", c));")
+    add("f", "store volatile<fnp> = function address of other type", FA + " e.V<fnp>() = fa; sink(e, e.V<fnp>());")
+    add("f", "store volatile<fnp> = volatile function address of other type", FA + " auto& w = *Wd::tptr<long (*)(long)>(e.sb, 768); w = fa; e.V<fnp>() = w; sink(e, e.V<fnp>());")
+    add("f", "init tainted<fnp> = function address of other type", FA + " tainted<fnp, S> t = fa; sink(e, t);")
+    add("f", "assign tainted<fnp> = function address of other type", FA + " tainted<fnp, S> t = nullptr; t = fa; sink(e, t);")
+    add("f", "invoke(take_fn, function address of other type)", FA + " sink(e, Wd::invoke<fnp(fnp)>(e.sb, \"take_fn\", fa));")
+    add("f", "invoke(take_fn, opaque function address of other type)", FA + " sink(e, Wd::invoke<fnp(fnp)>(e.sb, \"take_fn\", fa.to_opaque()));")
+    add("f", "store volatile<cpchar> = function address", FA + " auto& v = *Wd::tptr<cpchar>(e.sb, e.off<cpchar>()); v = fa; sink(e, v);")
+    add("f", "store volatile<bool> = callback", "auto& v = *Wd::tptr<bool>(e.sb, 776); v = e.CB(); sink(e, v);")
+    add("f", "store volatile<long> = callback", "auto& v = *Wd::tptr<long>(e.sb, 784); v = e.CB(); sink(e, v);")
+    add("f", "store struct fn field = function address of other type", FA + " auto& v = e.V<fnp>(); v = fa; sink(e, v);")
     add("r", "init tainted<fnp> = callback", "tainted<fnp, S> t = e.CB(); sink(e, t);")
+    # pointers held by a wrapper of ANOTHER sandbox type (here: a noop sandbox, whose pointers are application addresses)
+    FP = "auto fp = e.nsb.UNSAFE_accept_pointer(e.raw());"
+    add("r", "store volatile<pint> = tainted<pint,other>", FP + " e.V<pint>() = fp; sink(e, e.V<pint>());")
+    add("r", "init tainted<pint,S> = tainted<pint,other>", FP + " tainted<pint, S> t = fp; sink(e, t);")
+    add("r", "assign tainted<pint,S> = tainted<pint,other>", FP + " tainted<pint, S> t = nullptr; t = fp; sink(e, t);")
+    add("r", "invoke(echo_ptr, tainted<pint,other>)", FP + " sink(e, Wd::invoke<pint(pint)>(e.sb, \"echo_ptr\", fp));")
+    add("r", "invoke(echo_ptr, opaque<pint,other>)", FP + " sink(e, Wd::invoke<pint(pint)>(e.sb, \"echo_ptr\", fp.to_opaque()));")
+    add("r", "store struct field ps->c = tainted<pint,other>", FP + " e.Vps().c = fp; sink(e, e.Vps().c);")
+    add("r", "register_callback(returns opaque of other sandbox)", "auto c = e.sb.register_callback(cb_foreign_opaque_ret); sink_cb(e, c);")
+    add("r", "register_callback(takes opaque of other sandbox)", "auto c = e.sb.register_callback(cb_foreign_opaque_param); sink_cb(e, c);")
     add("g", "store volatile<fnp> = callback of same type control", "e.V<fnp>() = e.CB(); sink(e, e.V<fnp>());")
     add("g", "invoke(take_fn, callback of same type) control", "sink(e, Wd::invoke<fnp(fnp)>(e.sb, \"take_fn\", e.CB()));")
     add("g", "store volatile<fnp> = function address of same type control", "auto fa = e.sb.INTERNAL_get_sandbox_function_name<int(int)>(\"echo_int\"); e.V<fnp>() = fa; sink(e, e.V<fnp>());")
